@@ -27,6 +27,9 @@ FloatTokConst(t) ==
          IN K(FltV(FloatTable[i][2], FloatTable[i][3]))
 Idents == {"a", "b", "c", "d", "x", "y", "z", "w", "f", "g", "t", "o", "p", "q", "u", "m", "k1", "k2", "zz",
            "Y", "N", "a0",
+           \* names that begin with a keyword or literal word, contain digits / underscores
+           "not_x", "not1", "or_1", "and2", "if_", "else_9", "note", "iffy", "orb", "Truex", "Nonesuch",
+           "_y", "x_1", "a_b",
            "min", "max", "CSE", "abs", "math", "log"}
 CmpToks == {"==", "!=", "<", "<=", ">", ">="}
 
